@@ -24,6 +24,9 @@ EXTENDS MolGraph, Refine, Serialize, Grammar
 VARIABLES objs,     \* object id -> graph record (MolGraph)
           cls,      \* object id -> class id; equal class = verified same molecule (identity level)
           root,     \* object id -> [atom -> atom of the class's first object]
+          prov,     \* object id -> [cl, g, pstr]: whose molecule an object stands for in the pipeline.  A canonicalized
+                    \*   graph stands for the molecule that was handed to canonicalize_molecule (cl = its class, g = its
+                    \*   value at that moment), whatever the call returned; pstr = the string a parsed graph was read from
           strOf,    \* class id -> TUCAN string first returned for it   (partial: DOMAIN = seen)
           canonOf,  \* class id -> labelled summary of the first canonical graph
           rootPart, \* class id -> [root atom -> partition class] from the first canonicalization
@@ -31,12 +34,12 @@ VARIABLES objs,     \* object id -> graph record (MolGraph)
           strs,     \* string id -> [s, cl]  strings the session knows (serialized, respelled, typed in)
           results,  \* key -> value : generic registry "same input, same result" (C14, C16)
           viol      \* set of violated clause names
-vars == <<objs, cls, root, strOf, canonOf, rootPart, sers, strs, results, viol>>
+vars == <<objs, cls, root, prov, strOf, canonOf, rootPart, sers, strs, results, viol>>
 
 CONSTANTS RLimit,    \* refinement mode (recompute with the spec's algorithm) for graphs up to this size
           BFLimit    \* brute-force isomorphism / automorphism up to this size
 
-Init == /\ objs = <<>> /\ cls = <<>> /\ root = <<>> /\ strOf = <<>> /\ canonOf = <<>> /\ rootPart = <<>>
+Init == /\ objs = <<>> /\ cls = <<>> /\ root = <<>> /\ prov = <<>> /\ strOf = <<>> /\ canonOf = <<>> /\ rootPart = <<>>
         /\ sers = {} /\ strs = <<>> /\ results = <<>> /\ viol = {}
 
 \* ------------------------------------------------------------------ reading event records
@@ -130,6 +133,7 @@ Input(e) ==
      /\ objs' = objs @@ (e.obj :> G)
      /\ cls' = cls @@ (e.obj :> e.obj)
      /\ root' = root @@ (e.obj :> [a \in Atoms(G) |-> a])
+     /\ prov' = prov @@ (e.obj :> [cl |-> e.obj, g |-> G, rt |-> [a \in Atoms(G) |-> a], pstr |-> ""])
      /\ viol' = viol \cup (IF WellFormed(G) THEN {} ELSE {"H:malformed-input"})
   /\ UNCHANGED <<strOf, canonOf, rootPart, sers, strs, results>>
 
@@ -146,6 +150,10 @@ Derive(e) ==
         /\ cls' = cls @@ (e.obj :> IF good THEN cls[e.from] ELSE e.obj)
         /\ root' = root @@ (e.obj :> IF good THEN [b \in Atoms(H) |-> root[e.from][InvPerm(f, G.n)[b]]]
                                             ELSE [b \in Atoms(H) |-> b])
+        /\ prov' = prov @@ (e.obj :> [cl |-> IF good THEN cls[e.from] ELSE e.obj, g |-> H,
+                                     \* the same graph with attributes added (identity renaming) is still "the parse of pstr"
+                                     pstr |-> IF good /\ (\A i \in 1..G.n : f[i] = i) THEN prov[e.from].pstr ELSE "",
+                                     rt |-> IF good THEN [b \in Atoms(H) |-> root[e.from][InvPerm(f, G.n)[b]]] ELSE [b \in Atoms(H) |-> b]])
         /\ viol' = viol \cup (IF good THEN {} ELSE {"H:derivation-does-not-verify"})
   /\ UNCHANGED <<strOf, canonOf, rootPart, sers, strs, results>>
 
@@ -157,6 +165,7 @@ Mutate(e) ==
      /\ objs' = [objs EXCEPT ![e.obj] = G]
      /\ cls' = [cls EXCEPT ![e.obj] = e.newcls]
      /\ root' = [root EXCEPT ![e.obj] = [a \in Atoms(G) |-> a]]
+     /\ prov' = [prov EXCEPT ![e.obj] = [cl |-> e.newcls, g |-> G, rt |-> [a \in Atoms(G) |-> a], pstr |-> ""]]
      /\ viol' = viol \cup (IF WellFormed(G) /\ e.newcls \notin {cls[k] : k \in DOMAIN cls} THEN {} ELSE {"H:malformed-input"})
   /\ UNCHANGED <<strOf, canonOf, rootPart, sers, strs, results>>
 
@@ -167,14 +176,34 @@ SameMol(e) ==
   /\ LET G == objs[e.a]  H == objs[e.b]  f == PermOf(e.perm)
          good == IsColourIso(G, H, f)
          ca == cls[e.a]  cb == cls[e.b]
-     IN /\ viol' = viol \cup (IF good THEN {} ELSE {"H:same-molecule-claim-does-not-verify"})
-        /\ cls' = IF good THEN [k \in DOMAIN cls |-> IF cls[k] = cb THEN ca ELSE cls[k]] ELSE cls
-        /\ root' = IF good /\ ca # cb
+         merge == good /\ ca # cb
+         \* atom y of ca's first object, seen as an atom of cb's first object
+         Across(y) == root[e.b][f[InvPerm(root[e.a], G.n)[y]]]
+         \* atom v of cb's first object, seen as an atom of ca's first object
+         Tr(v) == root[e.a][InvPerm(f, G.n)[InvPerm(root[e.b], H.n)[v]]]
+         rpb == IF merge /\ Known(rootPart, cb) THEN [y \in Atoms(G) |-> rootPart[cb][Across(y)]] ELSE <<>>
+     IN /\ viol' = viol
+             \cup (IF good THEN {} ELSE {"H:same-molecule-claim-does-not-verify"})
+             \cup (IF merge /\ Known(strOf, ca) /\ Known(strOf, cb) /\ strOf[ca] # strOf[cb]
+                     THEN {"C01:string-differs-between-descriptions"} ELSE {})
+             \cup (IF merge /\ Known(canonOf, ca) /\ Known(canonOf, cb) /\ canonOf[ca] # canonOf[cb]
+                     THEN {"C04:labelled-graph-differs-between-descriptions"} ELSE {})
+             \cup (IF merge /\ Known(rootPart, ca) /\ Known(rootPart, cb) /\ rootPart[ca] # rpb
+                     THEN {"C13:class-depends-on-numbering"} ELSE {})
+        /\ cls' = IF merge THEN [k \in DOMAIN cls |-> IF cls[k] = cb THEN ca ELSE cls[k]] ELSE cls
+        /\ root' = IF merge
                    THEN [k \in DOMAIN root |-> IF cls[k] = cb
-                           THEN [x \in DOMAIN root[k] |-> root[e.a][InvPerm(f, G.n)[root[e.b][InvPerm(root[k], H.n)[x]]]]]
+                           THEN [x \in DOMAIN root[k] |-> Tr(root[k][x])]
                            ELSE root[k]]
                    ELSE root
-  /\ UNCHANGED <<objs, strOf, canonOf, rootPart, sers, strs, results>>
+        /\ strOf' = IF merge /\ ~Known(strOf, ca) /\ Known(strOf, cb) THEN strOf @@ (ca :> strOf[cb]) ELSE strOf
+        /\ canonOf' = IF merge /\ ~Known(canonOf, ca) /\ Known(canonOf, cb) THEN canonOf @@ (ca :> canonOf[cb]) ELSE canonOf
+        /\ rootPart' = IF merge /\ ~Known(rootPart, ca) /\ Known(rootPart, cb) THEN rootPart @@ (ca :> rpb) ELSE rootPart
+        /\ sers' = IF merge THEN {<<IF p[1] = cb THEN ca ELSE p[1], p[2], p[3]>> : p \in sers} ELSE sers
+        /\ prov' = IF merge THEN [k \in DOMAIN prov |-> IF prov[k].cl = cb
+                                   THEN [prov[k] EXCEPT !.cl = ca, !.rt = [x \in DOMAIN prov[k].rt |-> Tr(prov[k].rt[x])]]
+                                   ELSE prov[k]] ELSE prov
+  /\ UNCHANGED <<objs, strs, results>>
 
 \* --- canonicalize_molecule(arg) -> ret
 CanonClauses(e, G, R) ==
@@ -215,6 +244,7 @@ Canonicalize(e) ==
         /\ root' = root @@ (e.ret :> IF traceable /\ G.n = R.n
                                        THEN [b \in Atoms(R) |-> root[e.arg][InvPerm(sigma, G.n)[b]]]
                                        ELSE [b \in Atoms(R) |-> b])
+        /\ prov' = prov @@ (e.ret :> [cl |-> c, g |-> G, rt |-> root[e.arg], pstr |-> prov[e.arg].pstr])
         /\ canonOf' = IF Known(canonOf, c) THEN canonOf ELSE canonOf @@ (c :> Summary(R))
         /\ rootPart' = IF Known(rootPart, c) \/ ~traceable THEN rootPart
                        ELSE rootPart @@ (c :> [x \in Atoms(G) |-> R.part[sigma[InvPerm(root[e.arg], G.n)[x]]]])
@@ -227,24 +257,26 @@ Automorphism(e) ==
      viol' = viol \cup (IF ~IsColourIso(G, G, f) THEN {"H:claimed-automorphism-does-not-verify"}
                         ELSE IF \E a \in Atoms(G) : G.part[f[a]] # G.part[a]
                              THEN {"C13:symmetric-atoms-in-different-classes"} ELSE {})
-  /\ UNCHANGED <<objs, cls, root, strOf, canonOf, rootPart, sers, strs, results>>
+  /\ UNCHANGED <<objs, cls, root, prov, strOf, canonOf, rootPart, sers, strs, results>>
 
 \* --- serialize_molecule(arg) -> string
 SerClauses(e, G) ==
-  LET s == e.ret  c == cls[e.arg]  D == Denote(s) IN
+  \* G = the graph handed to serialize_molecule; Gp = the molecule it stands for in the pipeline (class c)
+  LET s == e.ret  c == prov[e.arg].cl  Gp == prov[e.arg].g  D == Denote(s) IN
   (IF Known(strOf, c) /\ strOf[c] # s THEN {"C01:string-differs-between-descriptions"} ELSE {})
+  \cup (IF prov[e.arg].pstr # "" /\ prov[e.arg].pstr # s THEN {"C03:not-a-fixed-point-of-the-pipeline"} ELSE {})
   \cup LayoutClauses(s, G)
   \cup (IF ~D.acc THEN {"C03:emitted-string-is-not-accepted-by-the-grammar(" \o D.why \o ")"}
-        ELSE (IF D.n # G.n THEN {"C03:atom-count"} ELSE {})
-             \cup (IF Cardinality(D.bonds) # NumEdges(G) THEN {"C03:bond-count"} ELSE {})
-             \cup (IF D.n = G.n /\ Has(e, "wit") /\ ~IsColourIso(G, DenoteGraph(D), PermOf(e.wit))
+        ELSE (IF D.n # Gp.n THEN {"C03:atom-count"} ELSE {})
+             \cup (IF Cardinality(D.bonds) # NumEdges(Gp) THEN {"C03:bond-count"} ELSE {})
+             \cup (IF D.n = Gp.n /\ Has(e, "wit") /\ ~IsColourIso(Gp, DenoteGraph(D), PermOf(e.wit))
                      THEN {"C03:string-does-not-reconstruct-the-molecule"} ELSE {})
-             \cup (IF D.n = G.n /\ ~Has(e, "wit") /\ G.n <= BFLimit /\ ~Isomorphic(G, DenoteGraph(D))
+             \cup (IF D.n = Gp.n /\ ~Has(e, "wit") /\ Gp.n <= BFLimit /\ ~Isomorphic(Gp, DenoteGraph(D))
                      THEN {"C03:string-does-not-reconstruct-the-molecule"} ELSE {})
-             \* beyond brute force: the harness ran two independent matchers to completion and found no bijection
-             \cup (IF D.n = G.n /\ ~Has(e, "wit") /\ G.n > BFLimit /\ Has(e, "nowit")
+             \* beyond brute force: the harness ran its matcher to completion and found no bijection
+             \cup (IF D.n = Gp.n /\ ~Has(e, "wit") /\ Gp.n > BFLimit /\ Has(e, "nowit")
                      THEN {"C03:string-does-not-reconstruct-the-molecule"} ELSE {}))
-  \cup (IF \E p \in sers : p[2] = s /\ p[1] # c /\ CertainlyDifferent(p[3], G)
+  \cup (IF \E p \in sers : p[2] = s /\ p[1] # c /\ CertainlyDifferent(p[3], Gp)
           THEN {"C02:different-molecules-share-a-string"} ELSE {})
   \cup (IF Has(e, "after") /\ GraphOf(e.after).mattr # GraphOf(e.before).mattr THEN {"C12:serialize-changed-atom-attributes"} ELSE {})
   \cup (IF Has(e, "after") /\ GraphOf(e.after).ebag # GraphOf(e.before).ebag THEN {"C12:serialize-changed-bonds"} ELSE {})
@@ -254,17 +286,17 @@ SerClauses(e, G) ==
 
 Serialize(e) ==
   /\ e.op = "ser" /\ Known(objs, e.arg) /\ Has(e, "ret")
-  /\ LET G == objs[e.arg]  c == cls[e.arg] IN
+  /\ LET G == objs[e.arg]  c == prov[e.arg].cl IN
      /\ viol' = viol \cup SerClauses(e, G)
      /\ strOf' = IF Known(strOf, c) THEN strOf ELSE strOf @@ (c :> e.ret)
-     /\ sers' = sers \cup {<<c, e.ret, G>>}
-  /\ UNCHANGED <<objs, cls, root, canonOf, rootPart, strs, results>>
+     /\ sers' = sers \cup {<<c, e.ret, prov[e.arg].g>>}
+  /\ UNCHANGED <<objs, cls, root, prov, canonOf, rootPart, strs, results>>
 
 \* --- a library call ended with an exception where the properties demand a normal return (C15 and others)
 Raised(e) ==
   /\ e.op = "raised"
   /\ viol' = viol \cup {e.clause}
-  /\ UNCHANGED <<objs, cls, root, strOf, canonOf, rootPart, sers, strs, results>>
+  /\ UNCHANGED <<objs, cls, root, prov, strOf, canonOf, rootPart, sers, strs, results>>
 
 \* --- graph_from_tucan(s) -> ret | exception
 ParseClauses(e, D) ==
@@ -282,37 +314,44 @@ Parse(e) ==
   /\ e.op = "parse"
   /\ LET D == Denote(e.s) IN
      /\ viol' = viol \cup ParseClauses(e, D)
+             \* the string was returned for object `of`: its parse must be that molecule again (the harness looked for a
+             \* bijection with a complete matcher; TLC checks the one it found)
+             \cup (IF Has(e, "of") /\ Known(objs, e.of) /\ Has(e, "g")
+                      /\ (IF Has(e, "wit") THEN ~IsColourIso(prov[e.of].g, GraphOf(e.g), PermOf(e.wit)) ELSE Has(e, "nowit"))
+                     THEN {"C03:parsed-graph-is-not-the-molecule-the-string-was-made-for"} ELSE {})
      /\ IF Has(e, "g") /\ NewObj(e.ret)
         THEN LET P == GraphOf(e.g)
                  \* the string came out of Serialize(of) and the harness supplied the witness: verified => same molecule
-                 linked == Has(e, "of") /\ Known(objs, e.of) /\ Has(e, "wit") /\ objs[e.of].n = P.n
-                           /\ IsColourIso(objs[e.of], P, PermOf(e.wit))
+                 linked == Has(e, "of") /\ Known(objs, e.of) /\ Has(e, "wit") /\ prov[e.of].g.n = P.n
+                           /\ IsColourIso(prov[e.of].g, P, PermOf(e.wit))
+                    pc == IF linked THEN prov[e.of].cl ELSE IF Has(e, "sid") /\ Known(strs, e.sid) THEN strs[e.sid].cl ELSE e.ret
+                    rt == IF linked THEN [b \in Atoms(P) |-> prov[e.of].rt[InvPerm(PermOf(e.wit), P.n)[b]]] ELSE [b \in Atoms(P) |-> b]
              IN /\ objs' = objs @@ (e.ret :> P)
-                /\ cls' = cls @@ (e.ret :> IF linked THEN cls[e.of] ELSE IF Has(e, "sid") /\ Known(strs, e.sid) THEN strs[e.sid].cl ELSE e.ret)
-                /\ root' = root @@ (e.ret :> IF linked THEN [b \in Atoms(P) |-> root[e.of][InvPerm(PermOf(e.wit), P.n)[b]]]
-                                                       ELSE [b \in Atoms(P) |-> b])
-        ELSE UNCHANGED <<objs, cls, root>>
+                /\ cls' = cls @@ (e.ret :> pc)
+                /\ root' = root @@ (e.ret :> rt)
+                /\ prov' = prov @@ (e.ret :> [cl |-> pc, g |-> P, rt |-> rt, pstr |-> IF linked THEN e.s ELSE ""])
+        ELSE UNCHANGED <<objs, cls, root, prov>>
   /\ UNCHANGED <<strOf, canonOf, rootPart, sers, strs, results>>
 
 \* --- C11: the session learns a string / a respelling of a known string (verified on the denotations)
 StringIn(e) ==
   /\ e.op = "string" /\ ~Known(strs, e.sid)
   /\ strs' = strs @@ (e.sid :> [s |-> e.s, cl |-> 1000000 + e.sid])
-  /\ UNCHANGED <<objs, cls, root, strOf, canonOf, rootPart, sers, results, viol>>
+  /\ UNCHANGED <<objs, cls, root, prov, strOf, canonOf, rootPart, sers, results, viol>>
 Respell(e) ==
   /\ e.op = "respell" /\ ~Known(strs, e.sid) /\ Known(strs, e.from)
   /\ LET D1 == Denote(strs[e.from].s)  D2 == Denote(e.s)
          good == D1.acc /\ D2.acc /\ D1.n = D2.n /\ IsColourIso(DenoteGraph(D1), DenoteGraph(D2), PermOf(e.imap))
      IN /\ strs' = strs @@ (e.sid :> [s |-> e.s, cl |-> IF good THEN strs[e.from].cl ELSE 1000000 + e.sid])
         /\ viol' = viol \cup (IF good THEN {} ELSE {"H:respelling-does-not-preserve-the-molecule"})
-  /\ UNCHANGED <<objs, cls, root, strOf, canonOf, rootPart, sers, results>>
+  /\ UNCHANGED <<objs, cls, root, prov, strOf, canonOf, rootPart, sers, results>>
 
 \* --- generic registry: the same operation on the same input returned something else (C14, C16)
 Result(e) ==
   /\ e.op = "result"
   /\ viol' = viol \cup (IF Known(results, e.key) /\ results[e.key] # e.val THEN {e.clause} ELSE {})
   /\ results' = IF Known(results, e.key) THEN results ELSE results @@ (e.key :> e.val)
-  /\ UNCHANGED <<objs, cls, root, strOf, canonOf, rootPart, sers, strs>>
+  /\ UNCHANGED <<objs, cls, root, prov, strOf, canonOf, rootPart, sers, strs>>
 
 \* --- permute_molecule(arg, seed) -> ret   (C16)
 PermuteClauses(e, G, R) ==
@@ -336,6 +375,8 @@ Permute(e) ==
         /\ cls' = cls @@ (e.ret :> IF traceable /\ IsColourIso(G, R, sigma) THEN cls[e.arg] ELSE e.ret)
         /\ root' = root @@ (e.ret :> IF traceable THEN [b \in Atoms(R) |-> root[e.arg][InvPerm(sigma, G.n)[b]]]
                                                        ELSE [b \in Atoms(R) |-> b])
+        /\ prov' = prov @@ (e.ret :> [cl |-> IF traceable /\ IsColourIso(G, R, sigma) THEN cls[e.arg] ELSE e.ret, g |-> R, pstr |-> "",
+                                     rt |-> IF traceable THEN [b \in Atoms(R) |-> root[e.arg][InvPerm(sigma, G.n)[b]]] ELSE [b \in Atoms(R) |-> b]])
   /\ UNCHANGED <<strOf, canonOf, rootPart, sers, strs, results>>
 
 Step(e) == \/ Input(e) \/ Derive(e) \/ Mutate(e) \/ SameMol(e) \/ Canonicalize(e) \/ Automorphism(e) \/ Serialize(e)
